@@ -21,7 +21,7 @@ PROPS = {
     'C02': {'gens': ['c02'], 'translate': ['G:guards'], 'configs': C(['default', 'int64'])},
     'C03': {'gens': ['c03'], 'translate': ['G:guards'], 'configs': C(['default', 'int64'])},
     'C04': {'gens': ['c04'], 'translate': ['G:guards'], 'configs': C(['default', 'int64'])},
-    'C05': {'gens': ['c05', 'c05k'], 'translate': ['K:field5x52', 'K:ct', 'K:field10x26', 'K:scalar4x64', 'K:scalar8x32', 'K:ct32'], 'configs': C(['default', 'int64', 'int128struct'], ALLCONF + ['o2']),
+    'C05': {'gens': ['c05', 'c05k'], 'translate': ['K:field5x52', 'K:ct', 'K:field10x26', 'K:scalar4x64', 'K:scalar8x32', 'K:ct32'], 'configs': C(['default', 'asm', 'int64', 'int128struct'], ALLCONF + ['o2']),
             'assumptions': ['x86-64 assembly, safegcd modinv and ecmult internals are tied by correspondence only']},
     'C06': {'gens': ['c06'], 'translate': ['K:ct', 'K:ct32'], 'ct_valgrind': True, 'configs': C(['default'], ['default', 'verify']),
             'assumptions': ['compiler and CPU behaviour are outside the Lean model; valgrind observes the executed paths of the built binaries only']},
